@@ -186,6 +186,8 @@ def eval_case(c):
             return S_.SparsePCA(**dict(kw, n_modes=2, max_iter=3))      # a deferred iteration builds one graph layer per step
         if model == "ExtendedEOF":
             return S_.ExtendedEOF(tau=1, embedding=2, **kw)
+        if model == "ExtendedEOF-pca":
+            return S_.ExtendedEOF(tau=1, embedding=2, n_pca_modes=4, **kw)
         if model == "POP":
             return S_.POP(n_pca_modes=4, **kw)
         if model == "OPA":
@@ -193,11 +195,17 @@ def eval_case(c):
         raise KeyError(model)
     try:
         with dask.config.set(scheduler=cnt, num_workers=c.get("workers", 2)):
-            if model in ("EOF", "SparsePCA", "ExtendedEOF", "POP", "OPA"):
+            if model in ("EOF", "SparsePCA", "ExtendedEOF", "ExtendedEOF-pca", "POP", "OPA"):
                 m = build(False).fit(dd, "time")
                 target = m
                 if c.get("rotate"):
                     target = S_.EOFRotator(n_modes=2, power=c["rotate"], compute=False, max_iter=8).fit(m)
+            elif model in ("CPCCA", "CCA", "RDA"):
+                # whitening with alpha < 1 (fractional matrix power of the covariance) must stay deferred as well
+                Y = (dd.isel(lon=slice(0, 2)) * 0.5 + 0.3).rename({"lat": "lat2", "lon": "lon2"})
+                ekw = dict(alpha=0.5) if model == "CPCCA" else {}
+                m = getattr(xeofs.cross, model)(n_modes=2, compute=False, check_nans=False, use_pca=c.get("use_pca", False), n_pca_modes=4, **ekw).fit(dd, Y, "time")
+                target = m
             elif model == "MCA":
                 Y = (dd.isel(lon=slice(0, 2)) * 0.5).rename({"lat": "lat2", "lon": "lon2"})
                 m = xeofs.cross.MCA(n_modes=2, compute=False, check_nans=False, use_pca=c.get("use_pca", False), n_pca_modes=4).fit(dd, Y, "time")
@@ -225,6 +233,8 @@ def eval_case(c):
                     if k in target.data and not _is_lazy(target.data[k]):
                         msgs.append("input data was loaded into memory by a repeated compute()")
     except NotImplementedError as e:
+        if c["chunks"] != "elementwise":
+            return False, f"harness: dask refused the operation for chunking {c['chunks']} ({str(e)[:80]}) - the case would be vacuous"
         return True, f"refused by dask: {e}"
     # equality with the in-memory fit
     if model in ("EOF", "SparsePCA", "ExtendedEOF") and not msgs and not c.get("rotate"):
@@ -262,6 +272,9 @@ def bounded_cases(tier, seed):
         for model in ("EOF", "MCA"):
             cases.append(dict(model=model, chunks="samples", scheduler="sync", rotate=power, keep=True))
     cases.append(dict(model="EOF", chunks="samples", scheduler="sync", solver="full", keep=True))
+    for model in ("CPCCA", "CCA", "RDA", "ExtendedEOF-pca"):
+        cases.append(dict(model=model, chunks="samples", scheduler="sync", keep=True))
+    cases.append(dict(model="CPCCA", chunks="samples", scheduler="sync", use_pca=True, keep=True))
     cases.append(dict(model="EOF", chunks="samples", scheduler="sync", twice=True, keep=True))
     cases.append(dict(model="MCA", chunks="samples", scheduler="sync", twice=True, keep=True))
     cases.append(dict(model="MCA", chunks="samples", scheduler="sync", use_pca=True, keep=True))
